@@ -1,0 +1,17 @@
+//go:build verif
+// +build verif
+
+package app
+
+import (
+	"net/http"
+
+	genericapiserver "k8s.io/apiserver/pkg/server"
+
+	"github.com/kubewharf/kubegateway/pkg/clusters"
+)
+
+// VerifBuildProxyHandlerChain exposes the gateway's real proxy handler chain builder to verification harnesses.
+func VerifBuildProxyHandlerChain(manager clusters.Manager, enableAccessLog bool) func(apiHandler http.Handler, c *genericapiserver.Config) http.Handler {
+	return buildProxyHandlerChainFunc(&proxyHandlerOptions{clusterManager: manager, enableAccessLog: enableAccessLog})
+}
